@@ -115,10 +115,29 @@ Definition arg_eqb (a b : arg_kind) : bool :=
   | _, _ => false
   end.
 
-(* the sinks that print to the host, read from it, or compile/evaluate/execute text *)
+Definition elements_py : str := [118;121;120;97;108;47;101;108;101;109;101;110;116;115;46;112;121].
+Definition helpers_py : str := [118;121;120;97;108;47;104;101;108;112;101;114;115;46;112;121].
+Definition main_py : str := [118;121;120;97;108;47;109;97;105;110;46;112;121].
+Definition dictionary_py : str := [118;121;120;97;108;47;100;105;99;116;105;111;110;97;114;121;46;112;121].
+
+(* the functions the property names: input parsing (execute_vyxal, vy_eval, get_input),
+   the evaluate element (exp2_or_eval), the call element (function_call), E-dot (vy_exec) *)
+Definition anchor_fns : list (str * str) := [
+  (* vy_eval *) (helpers_py, [118;121;95;101;118;97;108]);
+  (* get_input *) (helpers_py, [103;101;116;95;105;110;112;117;116]);
+  (* exp2_or_eval *) (elements_py, [101;120;112;50;95;111;114;95;101;118;97;108]);
+  (* exp2_or_eval.<lambda> *) (elements_py, [101;120;112;50;95;111;114;95;101;118;97;108;46;60;108;97;109;98;100;97;62]);
+  (* function_call *) (elements_py, [102;117;110;99;116;105;111;110;95;99;97;108;108]);
+  (* function_call.<lambda> *) (elements_py, [102;117;110;99;116;105;111;110;95;99;97;108;108;46;60;108;97;109;98;100;97;62]);
+  (* vy_exec *) (elements_py, [118;121;95;101;120;101;99]);
+  (* execute_vyxal *) (main_py, [101;120;101;99;117;116;101;95;118;121;120;97;108]) ].
+
+(* the sinks that print to the host, read from it, or compile/evaluate/execute text;
+   sympy's text parsers count when they sit in one of the functions the property names *)
 Definition in_scope (s : sink) : bool :=
   match s_kind s with
   | KPrint | KExec | KEval | KCompile | KInput => true
+  | KSympy => existsb (fun a => str_eqb (fst a) (s_file s) && str_eqb (snd a) (s_fn s)) anchor_fns
   | _ => false
   end.
 
@@ -128,11 +147,6 @@ Definition in_scope (s : sink) : bool :=
    becoming eval(v)), and the count stops a second sink hiding behind an entry. *)
 Record exclusion := {
   x_file : str; x_fn : str; x_kind : sink_kind; x_arg : arg_kind; x_max : nat }.
-
-Definition elements_py : str := [118;121;120;97;108;47;101;108;101;109;101;110;116;115;46;112;121].
-Definition helpers_py : str := [118;121;120;97;108;47;104;101;108;112;101;114;115;46;112;121].
-Definition main_py : str := [118;121;120;97;108;47;109;97;105;110;46;112;121].
-Definition dictionary_py : str := [118;121;120;97;108;47;100;105;99;116;105;111;110;97;114;121;46;112;121].
 
 (* (a) legitimately unguarded: the text reaching the sink is not user text *)
 Definition legit_unguarded : list exclusion := [
